@@ -67,41 +67,80 @@ def check_probe_agreement(P, ctx, rule='C17.probe-agreement'):
     # back-shift loops agree between explicit removal and sweep
     bs = {}
     for f in ('GC_Rem_Ptr', 'GC_Sweep'):
-        fn = P.fn(f)
-        g2 = P.cfg(fn)
-        N = util.Norm(P, fn, inline=False)
-        # nj = (j+1) % nslots ; nh = entries[nj].hash ; cond nh != 0 && Probe(nj, nh) > 0 ; memcpy(&e[j], &e[nj], sizeof) ; memset(&e[nj]) ; j = nj
-        njd = [n for n in g2.live() if n.get('decl') and n['decl']['init'] is not None and ir.nocast(n['decl']['init'])[0] == 'bin' and ir.nocast(n['decl']['init'])[1] == '%'
-               and n['decl']['name'] not in ('i',)]
-        if len(njd) != 1:
-            bs[f] = None
-            continue
-        njn = njd[0]
-        nj = ('local', njn['decl']['name'], njn['decl']['id'])
-        jv = [x for x in ir.walk(ir.nocast(njn['decl']['init'])) if x[0] == 'local']
-        jv = jv[0] if jv else None
-        nhd = [n for n in g2.live() if n.get('decl') and n['decl']['init'] is not None and probe._slot_hash_read(n['decl']['init']) == nj]
-        nh = ('local', nhd[0]['decl']['name'], nhd[0]['decl']['id']) if len(nhd) == 1 else None
-        roles = {nj: ('local', 'NJ'), jv: ('local', 'J')}
-        if nh:
-            roles[nh] = ('local', 'NH')
-
-        def rc(e):
-            return ir.fmt(N.canon(ir.subst(ir.nocast(e), roles)))
-        loop_nodes = g2.innermost_loop_of(njn['id']) or set()
-        conds = sorted(rc(g2.nodes[i]['expr']) for i in loop_nodes if g2.nodes[i]['kind'] == 'cond')
-        acts = sorted(rc(g2.nodes[i]['expr']) for i in loop_nodes if g2.nodes[i]['kind'] == 'stmt' and g2.nodes[i]['expr'] is not None)
-        bs[f] = (rc(njn['decl']['init']), tuple(conds), tuple(acts))
-    ok = bs['GC_Rem_Ptr'] is not None and bs['GC_Rem_Ptr'] == bs['GC_Sweep']
+        bs[f] = backshift_form(P, f)
+    a, b = bs['GC_Rem_Ptr'], bs['GC_Sweep']
+    ok = a is not None and b is not None and a['next'] == b['next'] and a['table'] == b['table'] and a['acts'] == b['acts']
     ctx.check(ok, rule, 'back-shift:GC_Rem_Ptr==GC_Sweep', site(P.fn('GC_Sweep')),
               'after a removal both routines shift the following entries back one slot while they are displaced from home (probe distance > 0), '
               'copying whole entries and clearing the vacated slot',
-              ['GC_Rem_Ptr: %s' % (bs['GC_Rem_Ptr'],), 'GC_Sweep:   %s' % (bs['GC_Sweep'],)])
-    if bs['GC_Rem_Ptr']:
-        want_c = ('(0 != NH)', '(0 < GC_Probe(arg0, NJ, NH))')
-        ok = tuple(sorted(bs['GC_Rem_Ptr'][1])) == tuple(sorted(want_c)) and bs['GC_Rem_Ptr'][0] == '((1 + J) % arg0->nslots)'
-        ctx.check(ok, rule, 'back-shift:condition', site(P.fn('GC_Rem_Ptr')), 'the shift continues exactly while the next slot is occupied and its entry is away from home; the next slot is (j+1) modulo the table size')
+              ['GC_Rem_Ptr: %s' % (a,), 'GC_Sweep:   %s' % (b,)])
+    if a:
+        want_tab = {(0, 0): False, (0, 1): False, (0, 5): False, (3, 0): False, (3, 1): True, (3, 5): True}
+        ok = a['next'] == '((1 + J) % arg0->nslots)' and a['table'] == want_tab
+        ctx.check(ok, rule, 'back-shift:condition', site(P.fn(a['fn'])), 'the shift continues exactly while the next slot is occupied and its entry is away from home; the next slot is (j+1) modulo the table size',
+                  ['continue table (stored hash, probe distance) -> shifts: %s' % a['table']])
     ctx.floor(rule, 16)
+
+
+def backshift_form(P, fname, probe_fn='GC_Probe', depth=1):
+    """role-normalised description of the backward-shift loop of fname (searched in fname and, if not there, in the
+    same-unit helpers it calls): next-slot expression, the truth table of "continues shifting" over samples of
+    (stored hash of the next slot, its probe distance), and the set of actions of one shifting step"""
+    from . import loops
+    cands = [fname]
+    f0 = P.fn(fname)
+    if depth:
+        for c, _ in ir.all_calls(f0['body']):
+            nm = ir.callee_name(c)
+            if nm in P.functions and P.functions[nm]['unit'] == f0['unit'] and nm not in cands:
+                cands.append(nm)
+    for f in cands:
+        fn = P.fn(f)
+        g2 = P.cfg(fn)
+        N = util.Norm(P, fn, inline=False)
+        njd = [n for n in g2.live() if n.get('decl') and n['decl']['init'] is not None and ir.nocast(n['decl']['init'])[0] == 'bin' and ir.nocast(n['decl']['init'])[1] == '%'
+               and not any(x[0] == 'call' for x in ir.walk(n['decl']['init']))]
+        if len(njd) != 1:
+            continue
+        njn = njd[0]
+        nj = ('local', njn['decl']['name'], njn['decl']['id'])
+        jv = [x for x in ir.walk(ir.nocast(njn['decl']['init'])) if x[0] == 'local' or (x[0] == 'param' and x[2] != 0)]
+        if not jv:
+            continue
+        jv = jv[0]
+        nhd = [n for n in g2.live() if n.get('decl') and n['decl']['init'] is not None and probe._slot_hash_read(n['decl']['init']) == nj]
+        if len(nhd) != 1:
+            continue
+        nh = ('local', nhd[0]['decl']['name'], nhd[0]['decl']['id'])
+        roles = {nj: ('local', 'NJ'), jv: ('local', 'J'), nh: ('local', 'NH')}
+
+        class RN:
+            def canon(self_, e):
+                return N.canon(ir.subst(ir.nocast(e), roles))
+        rn = RN()
+        loop_nodes = g2.innermost_loop_of(njn['id']) or set()
+        movers = [g2.nodes[i] for i in loop_nodes if g2.nodes[i]['expr'] is not None and any(ir.callee_name(c) in ('memcpy', 'memmove') for c in ir.calls(g2.nodes[i]['expr']))]
+        if len(movers) != 1:
+            continue
+        probe_call = None
+        for i in loop_nodes:
+            n = g2.nodes[i]
+            if n['expr'] is None:
+                continue
+            for c in ir.calls(n['expr']):
+                if ir.callee_name(c) == probe_fn:
+                    probe_call = rn.canon(c)
+        if probe_call is None:
+            continue
+        table = {}
+        for hv in (0, 3):
+            for pv in (0, 1, 5):
+                why, node, env = util.walk_eval(g2, rn, {('local', 'NH'): hv, probe_call: pv, ('local', 'J'): 2, ('arrow', ('param', 0), 'nslots'): 11},
+                                                start=nhd[0]['succ'][0][0], stop=[movers[0]['id']] + [i for i in range(len(g2.nodes)) if i not in loop_nodes])
+                table[(hv, pv)] = (why == 'stop' and node['id'] == movers[0]['id'])
+        acts = sorted(ir.fmt(rn.canon(g2.nodes[i]['expr'])) for i in loop_nodes if g2.nodes[i]['kind'] == 'stmt' and g2.nodes[i]['expr'] is not None)
+        return {'fn': f, 'next': ir.fmt(rn.canon(njn['decl']['init'])), 'table': table, 'acts': tuple(acts)}
+    return None
 
 
 def check_entry_moves_whole(P, ctx, rule='C17.entry-moves-whole'):
@@ -141,7 +180,8 @@ def check_entry_moves_whole(P, ctx, rule='C17.entry-moves-whole'):
               'a root flag or mark left behind would attach to a different object', detail)
     # back-shift copies sizeof(struct GCEntry)
     for f in ('GC_Rem_Ptr', 'GC_Sweep'):
-        fn = P.fn(f)
+        bf = backshift_form(P, f)
+        fn = P.fn(bf['fn'] if bf else f)
         g = P.cfg(fn)
         cps = [(n, c) for n in g.live() if n['expr'] is not None for c in ir.calls(n['expr']) if ir.callee_name(c) in ('memcpy', 'memmove') and util.mentions_field(c[2][0], 'entries')]
         ok = len(cps) == 1 and ir.top_nocast(cps[0][1][2][2]) == ('sizeof', ('type', 'struct GCEntry'))
